@@ -256,24 +256,37 @@ func (fa *FuncAnalysis) mustReachPruned(from ssa.Instruction, targets []ssa.Inst
 	for _, t := range targets {
 		tset[t] = true
 	}
+	// The search is path-sensitive in one respect: it remembers which error values were tested non-nil
+	// on the way, so that `if err != nil || cond { return x, err }` is an error exit when entered through
+	// the err != nil edge.
 	type node struct {
-		b     *ssa.BasicBlock
-		start int
+		b      *ssa.BasicBlock
+		start  int
+		nonnil string
 	}
-	seen := map[*ssa.BasicBlock]bool{}
-	parent := map[*ssa.BasicBlock]*ssa.BasicBlock{}
+	seen := map[string]bool{}
+	type crumb struct {
+		b    *ssa.BasicBlock
+		prev *crumb
+	}
 	var bad *ssa.Return
-	var badBlock *ssa.BasicBlock
-	var visit func(n node) bool
-	visit = func(n node) bool {
+	var badCrumb *crumb
+	ei := errResultIndex(fa.Fn)
+	var visit func(n node, c *crumb) bool
+	visit = func(n node, c *crumb) bool {
 		for i := n.start; i < len(n.b.Instrs); i++ {
 			in := n.b.Instrs[i]
 			if tset[in] {
 				return false
 			}
 			if r, ok := in.(*ssa.Return); ok {
+				if ei >= 0 && ei < len(r.Results) && n.nonnil != "" {
+					if strings.Contains(n.nonnil, "\x00"+fa.Term(r.Results[ei]).String()+"\x00") {
+						return false // returns an error known to be non-nil on this path
+					}
+				}
 				if counts(r) {
-					bad, badBlock = r, n.b
+					bad, badCrumb = r, c
 					return true
 				}
 				return false
@@ -283,27 +296,32 @@ func (fa *FuncAnalysis) mustReachPruned(from ssa.Instruction, targets []ssa.Inst
 			}
 		}
 		for i, s := range n.b.Succs {
-			if seen[s] {
-				continue
-			}
-			if prune != nil {
-				if g, ok := fa.EdgeFact(n.b, i); ok && prune(g) {
+			nn := n.nonnil
+			if g, ok := fa.EdgeFact(n.b, i); ok {
+				if prune != nil && prune(g) {
 					continue
 				}
+				if g.Cond.Op == "binop" && g.Cond.Args[1].Op == "const" && g.Cond.Args[1].Name == "nil" &&
+					((g.Cond.Name == "!=" && g.Pos) || (g.Cond.Name == "==" && !g.Pos)) {
+					nn += "\x00" + g.Cond.Args[0].String() + "\x00"
+				}
 			}
-			seen[s] = true
-			parent[s] = n.b
-			if visit(node{s, 0}) {
+			key := strconv.Itoa(s.Index) + "|" + nn
+			if seen[key] {
+				continue
+			}
+			seen[key] = true
+			if visit(node{s, 0, nn}, &crumb{s, c}) {
 				return true
 			}
 		}
 		return false
 	}
 	start := from.Block()
-	if visit(node{start, fa.idx[from] + 1}) {
+	if visit(node{start, fa.idx[from] + 1, ""}, nil) {
 		var trail []string
-		for b := badBlock; b != nil && b != start; b = parent[b] {
-			trail = append([]string{blockLabel(fa, b)}, trail...)
+		for c := badCrumb; c != nil; c = c.prev {
+			trail = append([]string{blockLabel(fa, c.b)}, trail...)
 		}
 		trail = append([]string{blockLabel(fa, start) + " (from " + fa.e.InstrPos(from) + ")"}, trail...)
 		trail = append(trail, "return at "+fa.e.InstrPos(bad))
